@@ -79,5 +79,8 @@ pub fn run(ctx: &Ctx, rep: &mut Report) {
 }
 
 pub fn replay(_ctx: &Ctx, sub: &str, case: &Value) -> Option<CheckResult> {
+    if sub == "raw_bytes" {
+        return crate::fuzzglue::replay_raw("C04", case);
+    }
     (sub == "generated").then(|| check(&from_case::<Case>(case), &mut Stats::default()))
 }
